@@ -148,7 +148,7 @@ func TestVerifC19Config(t *testing.T) {
 
 func TestVerifC19Behaviour(t *testing.T) {
 	L := ev.Begin("C19", "c19-behaviour", "exploration",
-		"upstream {answers at once, holds its response headers until released (plain request, event-stream request, proxy with a flush interval, an https upstream silent in the TLS handshake, a request offering an h2c upgrade), answers at once and streams its body for 1.5s} x proxy.responseheadertimeout {unset, 200ms, 5s} through transport.SetConfig + main.newHTTPProxy + ServeHTTP: a held upstream with the 200ms limit must produce 504 while the upstream is still holding (causal: the harness releases the upstream only after the proxy answered; a 20s guard turns 'never answered' into the violation); an upstream answering at once yields 200 under every setting; plus an upstream address that swallows connection attempts (listening socket with a full backlog of 0) with proxy.dialtimeout=300ms x request {plain, websocket, websocket to an https target}: the client is answered or released within 10s. non-trivial = every case")
+		"upstream {answers at once, holds its response headers until released (plain request, event-stream request, proxy with a flush interval, an https upstream silent in the TLS handshake, a request offering an h2c upgrade), answers at once and streams its body for 1.5s} x proxy.responseheadertimeout {unset, 200ms, 5s} through transport.SetConfig + main.newHTTPProxy + ServeHTTP: a held upstream with the 200ms limit must produce 504 while the upstream is still holding (causal: the harness releases the upstream only after the proxy answered; a 20s guard turns 'never answered' into the violation); an upstream answering at once yields 200 under every setting; plus an upstream address that swallows connection attempts (listening socket with a full backlog of 0) with proxy.dialtimeout=300ms x request {plain, websocket, websocket to an https target}: the client is answered or released within 10s; plus an upstream that answers a websocket upgrade after 1.5s x proxy.responseheadertimeout {5s: served, 200ms: given up}. non-trivial = every case")
 	var hold atomic.Value
 	var slow atomic.Value // if set: the upstream answers at once and then streams its body for this long
 	slow.Store(time.Duration(0))
@@ -357,6 +357,68 @@ func TestVerifC19Behaviour(t *testing.T) {
 			}
 			srv.Close()
 		}
+	}
+	// websocket: the upstream's answer to the upgrade request is its response header. An upstream that
+	// takes 1.5s for it is served when the operator allows 5s, and given up on when the operator allows 200ms
+	{
+		upl, err := net.Listen("tcp", "127.0.0.1:0")
+		if err != nil {
+			panic("VERIF-INFRA: " + err.Error())
+		}
+		go func() {
+			for {
+				c, err := upl.Accept()
+				if err != nil {
+					return
+				}
+				go func() {
+					defer c.Close()
+					br := bufio.NewReader(c)
+					if _, err := http.ReadRequest(br); err != nil {
+						return
+					}
+					time.Sleep(1500 * time.Millisecond)
+					io.WriteString(c, "HTTP/1.1 101 Switching Protocols\r\nUpgrade: websocket\r\nConnection: Upgrade\r\n\r\nhello")
+				}()
+			}
+		}()
+		for _, rh := range []time.Duration{5 * time.Second, 200 * time.Millisecond} {
+			cfg := &config.Config{}
+			cfg.Proxy.ResponseHeaderTimeout = rh
+			cfg.Proxy.DialTimeout = 5 * time.Second
+			cfg.Proxy.Strategy, cfg.Proxy.Matcher, cfg.GlobCacheSize = "rr", "prefix", 10
+			transport.SetConfig(cfg)
+			srv := httptest.NewServer(newHTTPProxy(cfg, c19Stats()))
+			tbl, err := route.NewTable(bytes.NewBufferString("route add svc / http://" + upl.Addr().String() + "/\n"))
+			if err != nil {
+				panic(err)
+			}
+			route.SetTable(tbl)
+			c, err := net.Dial("tcp", srv.Listener.Addr().String())
+			if err != nil {
+				panic("VERIF-INFRA: " + err.Error())
+			}
+			start := time.Now()
+			io.WriteString(c, "GET /x HTTP/1.1\r\nHost: foo.com\r\nUpgrade: websocket\r\nConnection: Upgrade\r\nSec-WebSocket-Key: dGhlIHNhbXBsZSBub25jZQ==\r\nSec-WebSocket-Version: 13\r\n\r\n")
+			c.SetReadDeadline(time.Now().Add(20 * time.Second))
+			b, _ := io.ReadAll(c)
+			c.Close()
+			srv.Close()
+			L.Case()
+			L.NontrivialKey(fmt.Sprint("websocket-upgrade-after-1.5s/", rh))
+			first := strings.SplitN(string(b), "\r\n", 2)[0]
+			d := map[string]interface{}{"responseheadertimeout": rh.String(), "upstream": "answers the websocket upgrade after 1.5s", "answer": first, "elapsed": time.Since(start).String()}
+			L.Outcome(fmt.Sprint(rh, first))
+			L.Sample(d)
+			served := strings.HasPrefix(first, "HTTP/1.1 101") && strings.HasSuffix(string(b), "hello")
+			if rh == 5*time.Second && !served {
+				L.Violation("upstream-that-answered-in-time-not-served/websocket", d)
+			}
+			if rh == 200*time.Millisecond && served {
+				L.Violation("held-upstream-holds-the-client-despite-response-header-timeout/websocket", d)
+			}
+		}
+		upl.Close()
 	}
 	// idle connections per host: with proxy.maxconn=500 two bursts of 60 concurrent requests to each of two
 	// upstreams must be served by 60 connections per upstream - the second burst finds the first one's idle
